@@ -161,6 +161,18 @@ def scenarios(P):
             'conf': {},
             'probes': [('rg', [])],
         },
+        's14-reference-to-dir-override': {
+            # a main-file rule REFERS to a rule that policy.d overrides; an
+            # unrelated main-file rule is edited.  The caller holds the role
+            # the directory's definition asks for
+            'old': {'policy.yaml': {'get': 'rule:adm', 'adm': 'role:m',
+                                    'z': 'role:z1'},
+                    'd1/o.yaml': {'adm': 'role:d'}},
+            'new': {'policy.yaml': {'get': 'rule:adm', 'adm': 'role:m',
+                                    'z': 'role:z2'}},
+            'defaults': [], 'conf': {},
+            'probes': [('get', ['d'])],
+        },
         's5-alias-halves-swap': {
             'old': {'policy.yaml': {'a': 'rule:h1 and rule:h2',
                                     'h1': 'role:p', 'h2': 'role:q'}},
@@ -183,7 +195,8 @@ TIERS = {
                         's10-dir-overrides-default-rule',
                         's11-no-overwrite-dir-edit',
                         's12-empty-main-file-rewritten',
-                        's13-default-is-a-reference'],
+                        's13-default-is-a-reference',
+                        's14-reference-to-dir-override'],
                   bound=2, reduced=True, opcode=False,
                   probes={'s1-main-edit-dir-override': [2, 1],
                           's1b-main-edit-dir-touched': [1],
@@ -197,7 +210,8 @@ TIERS = {
                           's10-dir-overrides-default-rule': [1, 1],
                           's11-no-overwrite-dir-edit': [1, 1],
                           's12-empty-main-file-rewritten': [1],
-                          's13-default-is-a-reference': [1]}),
+                          's13-default-is-a-reference': [1],
+                          's14-reference-to-dir-override': [1]}),
     'thorough': dict(scen=None, bound=2, reduced=False, opcode=True,
                      probes=None),
 }
